@@ -85,12 +85,24 @@ FDiv(x, y) ==
                     qr == BDivMod(Shl(x.m, k), y.m)
                 IN Round((x.s + y.s) % 2, qr[1], x.e - y.e - k, qr[2] # <<>>)
 
-\* (2^n * r) mod y by repeated doubling; r < y
-RECURSIVE DoubleMod(_, _, _)
-DoubleMod(r, n, y) ==
-  IF n = 0 \/ r = <<>> THEN r
-  ELSE LET d == Shl(r, 1)
-       IN DoubleMod(IF BCmp(d, y) >= 0 THEN BSub(d, y) ELSE d, n - 1, y)
+\* n mod d (remainder only), schoolbook
+RECURSIVE ModLoop(_, _, _)
+ModLoop(n, d, i) ==
+  IF i < 0 THEN n
+  ELSE LET c == Shl(d, i)
+       IN ModLoop(IF BCmp(n, c) >= 0 THEN BSub(n, c) ELSE n, d, i - 1)
+BMod(n, d) == IF BCmp(n, d) < 0 THEN n ELSE ModLoop(n, d, BitLen(n) - BitLen(d))
+\* 2^n mod y by square-and-multiply
+RECURSIVE PowMod2(_, _)
+PowMod2(n, y) ==
+  IF n = 0 THEN BMod(One, y)
+  ELSE LET h == PowMod2(n \div 2, y)
+           sq == BMod(BMul(h, h), y)
+       IN IF n % 2 = 0 THEN sq ELSE BMod(Shl(sq, 1), y)
+\* (2^n * r) mod y
+DoubleMod(r, n, y) == IF r = <<>> THEN r
+                      ELSE IF n <= 64 THEN BMod(Shl(r, n), y)
+                      ELSE BMod(BMul(r, PowMod2(n, y)), y)
 
 \* C fmod / ECMAScript % / Rust f64 % : truncated remainder, sign of the dividend, always exact
 FRem(x, y) ==
